@@ -1,5 +1,6 @@
 mod c07;
 mod c08;
+mod c14;
 mod polygen;
 
 fn main() {
@@ -7,6 +8,7 @@ fn main() {
     let code = match opts.prop.as_str() {
         "C07" => c07::run(&opts),
         "C08" => c08::run(&opts),
+        "C14" => c14::run(&opts),
         p => {
             eprintln!("roots: unknown property {p}");
             2
